@@ -147,8 +147,9 @@ def fl(x):
     while num % 2 == 0: num //= 2; k -= 1
     return 'F%s%s_%s' % (sign, zs(num), zs(-k))
 
-def show(root):
-    """type-strict canonical text of an object graph with identity numbering (shared by load layer and round trips)"""
+def show(root, canon=False):
+    """type-strict canonical text of an object graph with identity numbering (shared by load layer and round trips);
+    canon=True lists dict entries sorted by the text of their key (for comparisons that must ignore key order)"""
     seen = {}
     def v(o):
         if o is None: return 'N'
@@ -167,7 +168,11 @@ def show(root):
         if type(o) is list: body = 'L[' + ';'.join(v(x) for x in o) + ']'
         elif type(o) is dict:
             parts = []
-            for a, b in o.items():
+            items = list(o.items())
+            if canon:
+                try: items.sort(key=lambda kv: show(kv[0]))
+                except Exception: pass
+            for a, b in items:
                 ka = v(a); parts.append(ka + '=>' + v(b))
             body = 'M{' + ';'.join(parts) + '}'
         elif type(o) is set: body = 'E{' + ';'.join(sorted(v(x) for x in o)) + '}'
